@@ -790,10 +790,10 @@ CASES += [
 
 # eighth round of behaviour-preserving patches (bn28 the table / listing printers of the CLI, bn29 the generators, bn30 the parser written in
 # other styles: let-else on peek(), token -> Option<operator> helpers, local closures, `kw @ (A | B)`, tuple-returning helpers, next_if_eq,
-# Result::map): 23 of 24 silent after the generalisations of DESIGN.md 15.6, one is a known alarm
+# Result::map): all 24 silent after the generalisations of DESIGN.md 15.6
 _BN8 = {28: ['C07', 'C09', 'C10', 'C11', 'C12'], 29: ['C15', 'C16', 'C17', 'C18'], 30: ['C03', 'C04', 'C05', 'C06', 'C08', 'C11']}
 _BN8_FILE = {28: M, 29: G, 30: P}
-_BN8_KNOWN = {'bn28-04': 'print_sized_line chains the label cells with the outcome cell into one iterator and indexes widths by its enumerate(): the index domain of a chained iterator is not derived (X3 fails closed, the table printers\' index sites stay undischarged)'}
+_BN8_KNOWN = {}
 for _k, _checks in _BN8.items():
     for _n in range(1, 9):
         _id = 'bn%d-%02d' % (_k, _n)
@@ -802,6 +802,11 @@ for _k, _checks in _BN8.items():
 
 CASES += [
  # every generalisation of round 8 with a twin that must fire
+ dict(id='table-cells-chain-index-shifted', kind='fire', file=M, patch='bn28-04.diff', old='pad_right(cell, widths[i])', new='pad_right(cell, widths[i + 1])', expect={'C12': 'violation'}, control=False),
+ dict(id='table-cells-chain-outcome-first', kind='fire', file=M, patch='bn28-04.diff', old='''    let cells = labels
+        .iter()
+        .map(ToString::to_string)
+        .chain(std::iter::once(outcome.to_string()));''', new='''    let cells = std::iter::once(outcome.to_string()).chain(labels.iter().map(ToString::to_string));''', expect={'C10': 'violation'}, control=False),
  dict(id='true-vars-guards-print-at-false', kind='fire', file=M, patch='bn28-03.diff', old='if !matches!(root.as_ref(), BDD::True) {', new='if !matches!(root.as_ref(), BDD::False) {', expect={'C10': 'True leaf'}, control=False),
  dict(id='true-vars-guards-descent-swapped', kind='fire', file=M, patch='bn28-03.diff', old='l_vals[parsed.to_free_index(s)] = TruthTableEntry::True;', new='l_vals[parsed.to_free_index(s)] = TruthTableEntry::False;', expect={'C10': 'X1'}, control=False),
  dict(id='pad-loop-inclusive-bound', kind='fire', file=M, patch='bn28-01.diff', old='while shown < width {', new='while shown <= width {', expect={'C12': 'Overflow'}, control=False),
